@@ -149,5 +149,7 @@ def run(ctx):
         "also": "AddSummaries(0.95, 25) on the samples of every replayed set after its first and last add order",
     }
     ctx.cov["distinct_nontrivial"] = nontriv
-    ctx.cov["exhaustive"] = True
+    # (M) is exhaustive in both tiers; (G) replays every set in every order only in the quick tier
+    ctx.cov["exhaustive_model_checking"] = True
+    ctx.cov["exhaustive"] = bool(q)
     return ctx.finish(RULE, assumptions=ASSUMPTIONS)
